@@ -119,6 +119,24 @@ def step (line : String) : String :=
       | none => "err ValueError"
       | some h => "ok " ++ showPts h
     | none => "bad-op"
+  | ["convex", strict, eps, p] => match parseBool strict, parseRat eps, parsePts p with
+    | some strict, some eps, some pts => if isConvexPolygon strict eps pts then "1" else "0"
+    | _, _, _ => "bad-op"
+  | ["cfb", tol, c, sub] => match parseRat tol, parsePts c, parsePts sub with
+    | some tol, some clip, some subj =>
+      match mkConcaveClip clip tol with
+      | none => "err ValueError"
+      | some cl => match concaveNoPart cl tol subj with
+        | none => "none"
+        | some v => "whole " ++ showPts v
+    | _, _, _ => "bad-op"
+  | ["gh", op, ins, bits] => match parseBool op, parseBool ins with
+    | some op, some ins =>
+      let isect := bits.toList.map (fun ch => ch == '1')
+      let marks := ghPhase2 op ins isect
+      String.ofList (marks.map (fun mk => match mk with | none => '-' | some true => '1' | some false => '0')) ++ "|" ++
+        String.ofList ((ghUsed marks).map (fun b => if b then '1' else '0'))
+    | _, _ => "bad-op"
   | ["pip", tol, p, poly] => match parseRat tol, parsePt p, parsePts poly with
     | some tol, some p, some poly => toString (pointInPolygon p poly tol)
     | _, _, _ => "bad-op"
